@@ -232,12 +232,30 @@ func c02cfg() (scfg, en int) {
 	return p[0], p[1]
 }
 
-// c02client builds the client side in the given configuration.
-func c02client(scfg, en int) (*Client, *vcConn) {
+// c02client builds the client side in the given configuration. Its view of the server's
+// capabilities is what the real server advertises in its greeting for that configuration
+// (fed through the real greeting handler).
+func c02client(scfg, en int) (*Client, *vcConn) { return c02clientState(scfg, en, 1) }
+
+func c02clientState(scfg, en, state int) (*Client, *vcConn) {
+	gstate := 1
+	if state == 0 {
+		gstate = 0
+	}
+	_, out := c02serveWith(&c02sess{}, scfg, en, gstate, nil)
+	eol := strings.Index(string(out), "\r\n")
+	nd.Assert(eol > 0, "server-sent-no-greeting")
 	vc := &vcConn{silent: true}
-	c := vcDirect(vc, imap.ConnStateSelected, nil)
-	c.caps = c02caps(scfg, en)
-	close(c.greetingCh)
+	c := vcDirect(vc, imap.ConnStateNone, nil)
+	c.greetingRecv = false
+	c.caps = nil
+	vc.in = append(vc.in, out[:eol+2]...)
+	err := c.readResponse()
+	nd.Assert(err == nil && c.caps != nil, "client-rejects-the-server-greeting")
+	vc.in, vc.pos = nil, 0
+	if state > 0 {
+		c.state = imap.ConnStateSelected
+	}
 	switch en {
 	case 1:
 		c.enabled[imap.CapUTF8Accept] = struct{}{}
@@ -478,7 +496,11 @@ func c02statusEq(g, w *imap.StatusOptions) bool {
 func VerifC02Strings() {
 	scfg, en := c02cfg()
 	k, cmd := nd.Param("k"), nd.Param("cmd")
-	c, vc := c02client(scfg, en)
+	st0 := 1
+	if cmd == 0 {
+		st0 = 0
+	}
+	c, vc := c02clientState(scfg, en, st0)
 	state := 1
 	var run func()
 	var check func(call c02call)
